@@ -44,6 +44,9 @@ def obligations(tier):
            bounds="none, each single and each ordered pair (same base object) of 31 injection sites on 7 base objects"),
         CH("dropped_custom_values_do_not_flag", H, "dropped_custom_values", t, mode="E1s", functions=F[:1],
            bounds="custom property given as null / [] at 9 sites (top level, embedded, extension, bundle and observed-data members), alone or next to each injection"),
+        CH("registered_toplevel_extensions_not_custom", H, "toplevel_extension_routes", t, mode="E1s", functions=F[:1] + ["stix2.versioning.new_version", "stix2.base._STIXBase.__deepcopy__"],
+           bounds="6 combinations of 3 registered extensions (two toplevel-property) x with/without a genuinely custom property x 9 routes (parse, add_markings, deepcopy, "
+                  "new_version, parse of an instance, bundle member, constructor from the finished object's values strict and permissive, two marking steps)"),
         CH("unknown_types_and_store_switch", H, "stores_and_unknown_types", t, mode="E1s", functions=F[8:10],
            bounds="4 documents (unregistered type alone / with toplevel-property extension / with new-sdo extension; custom property) x allow_custom x 4 entry points"),
     ]
